@@ -24,6 +24,11 @@
 #include <list>
 #include "lib/utils/clock.h"
 
+#ifdef EBUSD_VERIF
+// verification harness hook (weak, normally absent): called by the pushing thread after an item was handed over
+extern "C" void ebusd_verif_after_push(void* queue) __attribute__((weak));
+#endif
+
 namespace ebusd {
 
 /** \file lib/utils/queue.h */
@@ -77,6 +82,11 @@ class Queue {
     }
     pthread_cond_broadcast(&m_cond);
     pthread_mutex_unlock(&m_mutex);
+#ifdef EBUSD_VERIF
+    if (item && ebusd_verif_after_push) {
+      ebusd_verif_after_push(this);  // verification harness: schedule perturbation point after the hand-over (no behaviour change)
+    }
+#endif
   }
 
   /**
